@@ -85,6 +85,9 @@ def run_c10(ctx, fa):
                 "Python type, out-of-range int, bool for int, wrong fixed size, bytearray for fixed, unknown symbol, non-string map key, missing required "
                 "field, wrong hint) x strict x disable_tuple_notation; validate quiet and loud, schemaless writer, Writer(validator=True) with records "
                 "before and after; non-trivial = >= 2 schema nodes or a mutation")
+    if not ctx.quick():
+        from . import p_suite
+        p_suite.run(ctx, {"t_validate"}, ("C10.",))
     core.judge_cases(ctx, cases, "validate", ("C10.",), nontrivial_fn=lambda c: c["nodes"] >= 2 or bool(c["fault"]),
                      describe=lambda c: "fault=%s strict=%s tuples=%s schema=%s datum=%s" % (c["fault"], c["strict"], c["tuples"],
                                                                                             repr(proj.unpj(c["schema"]))[:150], _show(c["datum"])))
